@@ -3,8 +3,20 @@ import chancheck
 
 
 def nontrivial(b):
+    # a region is compared with its creating bytes when it is read and when it is received
+    if any(o["op"] == "send" and any(s["k"] == "M" for s in o.get("slots", [])) for o in b["ops"]):
+        return True
     return any(o["op"] == "read" for o in b["ops"]) and any(
         o["op"] in ("send", "clone") for o in b["ops"])
+
+
+def several_regions(b):
+    for o in b["ops"]:
+        if o["op"] == "send":
+            hs = [s["h"] for s in o.get("slots", []) if s["k"] == "M"]
+            if len(set(hs)) >= 2:
+                return True
+    return False
 
 
 ALL = (0, 1, 2, 3, 4, 5, 6, 7)   # tokens for lengths 0,1,page-1,page,page+1,2p-1,2p,2p+1
@@ -17,6 +29,9 @@ def plans(tier):
             {"name": "bfs-os", "variant": "os", "mode": "thread",
              "gen": dict(agents=(0,), maxch=0, maxreg=2, maxslots=2, maxops=3, regionlens=(0, 2)), "filter": nontrivial,
              "limit": 3000},
+            # every message that carries two different regions (lengths 0, page-1, page+1 in both orders)
+            {"name": "bfs-os-2regions", "variant": "os", "mode": "thread",
+             "gen": dict(agents=(0,), maxch=0, maxreg=2, maxslots=2, maxops=3, regionlens=(0, 2, 4)), "filter": several_regions},
             # one region beyond a huge-page boundary: created, cloned, sent, received, read - every order of 4 operations
             {"name": "bfs-os-2MiB", "variant": "os", "mode": "thread",
              "gen": dict(agents=(0,), maxch=0, maxreg=1, maxslots=1, maxops=4, regionlens=(10,)), "filter": nontrivial},
@@ -40,6 +55,10 @@ def plans(tier):
                 "limit": 20000})
     out.append({"name": "bfs-memfd-2MiB", "variant": "memfd", "mode": "thread",
                 "gen": dict(agents=(0,), maxch=0, maxreg=1, maxslots=1, maxops=4, regionlens=(10, 11)), "filter": nontrivial})
+    for variant in ("os", "memfd", "inprocess"):
+        out.append({"name": "bfs-%s-3regions" % variant, "variant": variant, "mode": "thread",
+                    "gen": dict(agents=(0,), maxch=0, maxreg=3, maxslots=3, maxops=4, regionlens=(0, 2, 4)),
+                    "filter": several_regions, "limit": 20000})
     out.append({"name": "bfs-os-d4", "variant": "os", "mode": "thread",
                 "gen": dict(agents=(0,), maxch=0, maxreg=2, maxslots=1, maxops=4, regionlens=(0, 2, 4)),
                 "filter": nontrivial, "limit": 30000})
